@@ -56,7 +56,11 @@ func c10Gen(r *gen.R) *c10Cfg {
 	}
 	for i := 0; i < r.Range(0, 4); i++ {
 		s := c10Set{Tag: fmt.Sprintf("set%d", i)}
-		for k := 0; k < r.Range(1, 4); k++ {
+		nEntries := r.Range(1, 4)
+		if r.P(0.12) {
+			nEntries = 0 // a list that holds nothing but comments: the set matches no name
+		}
+		for k := 0; k < nEntries; k++ {
 			suf := gen.Pick(r, c10Suffixes)
 			switch r.Intn(4) {
 			case 0:
